@@ -162,6 +162,24 @@ def run(ctx):
                       nontrivial=n_in >= 20 and 0 < f < 1, distinct_key=core.digest(cid),
                       sample=dict(desc, bins_repr=repr(bins)[:200], kept=int(mask.sum()), in_grid=n_in) if cid[1] < 3 else None)
     # ---- samples with sample-derived bins ------------------------------------
+    # ---- large inputs: more than 2^16 events inside the grid, different bin counts on the two axes (fast paths, flattened
+    # bin indices, chunking); judged by the in-situ monitor like every other call, plus re-gating
+    for cid, rng in ctx.cases([('big', i) for i in range(3 if ctx.tier == 'quick' else 30)]):
+        mon.cid = cid
+        N = int(rng.choice([70000, 120000]))
+        X = events(rng, N, str(rng.choice(['blob', 'mixture', 'uniform'])))
+        data = np.column_stack([X, np.arange(N)])
+        nx, ny = [(40, 64), (64, 40), (33, 33)][cid[1] % 3]
+        bins = [nx, ny] if rng.random() < 0.5 else [np.linspace(X[:, 0].min(), X[:, 0].max(), nx + 1), np.linspace(X[:, 1].min(), X[:, 1].max(), ny + 1)]
+        f = float(rng.choice([0.1, 0.5, 0.9, 1.0]))
+        sigma = draw_sigma(rng)
+        o = core.attempt(d2, data, [0, 1], cp(bins), f, 'linear', 'linear', sigma, None, True)
+        desc = dict(events='big', N=N, bins=[nx, ny], f=f, sigma=sigma)
+        if ctx.check(not o.raised, 'density2d:valid-call-refused', cid, exc=core.exc_str(o.exc) if o.raised else None, **desc):
+            out = o.value
+            o4 = core.attempt(d2, data, [0, 1], [e.copy() for e in out.bin_edges], 0.3, 'linear', 'linear', sigma, out.bin_mask.copy(), True)
+            ctx.check((not o4.raised) and np.array_equal(o4.value.mask, out.mask), 'regate:differs', cid, **desc)
+        ctx.case_done(class_key=('array-big', nx == ny), nontrivial=True, distinct_key=core.digest(cid))
     ns = 40 if ctx.tier == 'quick' else 4000
     for cid, rng in ctx.cases([('s', i) for i in range(ns)]):
         mon.cid = cid
